@@ -97,7 +97,8 @@ def probe_mode(probe, text, mode="file", warm=None, kw=None):
         except Exception:  # noqa: BLE001 - the earlier parse's own fate is not what is observed
             pass
     try:
-        return probe(parse_mode(text, mode, kw))
+        with impl.limited():
+            return probe(parse_mode(text, mode, kw))
     except Exception as e:  # noqa: BLE001
         return ["raises", type(e).__name__]
 
